@@ -85,13 +85,22 @@ def gen_cases(ctx):
             for _ in range(400 if thorough else 40):
                 cases.append(ddgen.case_history(f"h{cid}", kind, rng, nv=rng.randrange(3, 7), length=rng.choice([30, 60, 120]),
                                                 threads=threads)); cid += 1
+    # TDD (package TDDx; theorems C03_tdd_*): ternary nodes (true, unknown, false), reduction rule "all three children
+    # equal"; on every snapshot wf_full_b, td_ok_b and the invariant spelled out for ternary nodes (td_wf3_b);
+    # node_count against count_reach of the snapshot, under several orders
+    for _ in range(60 if thorough else 8):
+        cases.append(ddgen.tdd_case_node_counts(f"tn{cid}", rng, rng.randrange(1, 6), rng.choice([12, 24, 40]), 4 if thorough else 2)); cid += 1
+    for _ in range(60 if thorough else 6):
+        cases.append(ddgen.tdd_case_identities(f"ti{cid}", rng, nv=rng.randrange(1, 5), nident=rng.choice([24, 40]))); cid += 1
+    for _ in range(300 if thorough else 30):
+        cases.append(ddgen.tdd_case_history(f"th{cid}", rng, length=rng.choice([30, 60, 120]), threads=rng.choice([1, 1, 4]))); cid += 1
     return cases
 
 
 def run(ctx):
     ddcommon.run_dd(
         ctx, ["C03"], gen_cases(ctx),
-        rule="per kind (bdd, bcdd, zbdd): all 256 three-variable functions built by minterm disjunction, order changed to 3 (quick) / 6 (thorough) permutations, each function re-derived by Shannon ite, == / Hash / Ord of all corresponding and sampled cross pairs, drops + gc in between; random histories on 3..6 variables (apply, clone/drop, gc, add_vars, set_var_order, 1/4 or 1/2/8 threads) with a snapshot after every op; on every snapshot all handle pairs are compared (edge equality vs table equality); node-count cases: all 256 three-variable functions and 24 (quick) / 60 (thorough) random functions of 4, 5, 6 variables, NC of each under the initial and 2..5 random orders, compared with the diagram built from the value table. non-trivial = case with >= 3 ops",
+        rule="per kind (bdd, bcdd, zbdd): all 256 three-variable functions built by minterm disjunction, order changed to 3 (quick) / 6 (thorough) permutations, each function re-derived by Shannon ite, == / Hash / Ord of all corresponding and sampled cross pairs, drops + gc in between; random histories on 3..6 variables (apply, clone/drop, gc, add_vars, set_var_order, 1/4 or 1/2/8 threads) with a snapshot after every op; on every snapshot all handle pairs are compared (edge equality vs table equality); node-count cases: all 256 three-variable functions and 24 (quick) / 60 (thorough) random functions of 4, 5, 6 variables, NC of each under the initial and 2..5 random orders, compared with the diagram built from the value table; tdd: 8 (thorough 60) node-count cases (12..40 random three-valued functions of 1..5 variables, NC of each under the initial and 2 (thorough 4) random orders, drops + gc in between), 6 (thorough 60) identity cases and 30 (thorough 300) random histories (constants, variables, not, 8 connectives, ite, cofactors, clone/drop, gc, add_vars, set_var_order) with wf_full_b, td_ok_b and td_wf3_b on every snapshot. non-trivial = case with >= 3 ops",
         allowed_axioms=ALLOWED_AXIOMS)
 
 
